@@ -10,6 +10,7 @@ import (
 	"verif/harness/gen"
 	"verif/harness/refstore"
 
+	"github.com/freeconf/yang/meta"
 	"github.com/freeconf/yang/node"
 	"github.com/freeconf/yang/nodeutil"
 	"github.com/freeconf/yang/parser"
@@ -395,7 +396,101 @@ var c07invalid = []string{"depth=0", "depth=-1", "depth=x", "depth=1.5", "depth=
 	"fields=a(b", "fields=a)b", "fields=(a;b", "fc.xfields=a(b;(c)", "fc.range=(LIST!0-1",
 	"fc.max-node-count=x", "fc.max-node-count=-1", "fc.max-node-count=", "depth=2&content=bogus", "fields=%zz"}
 
+// conditions that hold take nothing away: a constrained read of a module whose 'when' statements are all true in the
+// data equals the same read of the same module written without them.  The operands are leaves the parameters
+// themselves filter (config false, at the default value, below the depth limit, not among the fields).
+const c07whenBody = `
+  leaf seen { config false; type int32; }
+  leaf mode { type string; default "auto"; }
+  leaf name { type string; }
+  leaf tail { %s type string; }
+  leaf tail2 { %s type string; }
+  container auto { %s leaf amode { type string; default "auto"; } leaf a1 { type string; } leaf a2 { type int32; default 7; }
+    container deep { %s leaf dd { config false; type int32; } leaf d1 { type string; } } }
+  container live { %s leaf oper { config false; type string; } leaf l1 { type string; } leaf l2 { config false; type string; } }
+  grouping g { leaf g1 { type string; } container gc { leaf g2 { type string; } } }
+  container us { leaf on { config false; type boolean; } leaf lim { type int32; default 3; } uses g { %s description "u"; } }
+  list row { key k; %s leaf k { type string; } leaf st { config false; type int32; } leaf kind { type string; default "std"; }
+    leaf note { %s type string; }
+    container ext { %s leaf ek { type string; default "std"; } leaf e1 { type string; } } }
+  container st { config false; leaf cnt { type int32; } container more { %s leaf mc { type int32; default 1; } leaf m1 { type string; } } }
+`
+
+var c07whenConds = []interface{}{`when "seen = 5";`, `when "mode = 'auto'";`, `when "amode = 'auto'";`, `when "dd = 1";`, `when "oper = 'up'";`, `when "on = 'true' and lim = 3";`,
+	`when "st > 0";`, `when "kind = 'std'";`, `when "ek = 'std'";`, `when "mc > 0";`}
+
+const c07whenData = `{"seen":5,"name":"n","tail":"t","tail2":"t2","auto":{"a1":"p","a2":7,"deep":{"dd":1,"d1":"q"}},"live":{"oper":"up","l1":"r","l2":"s"},
+ "us":{"on":true,"g1":"gg","gc":{"g2":"hh"}},
+ "row":[{"k":"r1","st":2,"kind":"std","ext":{"ek":"std","e1":"u"},"note":"n1"},{"k":"r2","st":9,"ext":{"e1":"w"},"note":"n2"}],"st":{"cnt":4,"more":{"mc":1,"m1":"z"}}}`
+
+func c07whenProbe(c *core.Ctx) {
+	none := make([]interface{}, len(c07whenConds))
+	for i := range none {
+		none[i] = ""
+	}
+	head := "module w { namespace \"urn:w\"; prefix w; revision 2020-01-01;"
+	yW := head + fmt.Sprintf(c07whenBody, c07whenConds...) + "}"
+	yN := head + fmt.Sprintf(c07whenBody, none...) + "}"
+	mW, err := parser.LoadModuleFromString(nil, yW)
+	if err != nil {
+		c.Violation(core.Replay{Kind: "property-failure", Class: "when-probe-load", Summary: "module with conditions does not load: " + err.Error(), Input: yW})
+		return
+	}
+	mN, err := parser.LoadModuleFromString(nil, yN)
+	if err != nil {
+		c.Violation(core.Replay{Kind: "property-failure", Class: "when-probe-load", Summary: "module without conditions does not load: " + err.Error(), Input: yN})
+		return
+	}
+	read := func(m *meta.Module, find string) string {
+		var o string
+		e := safeDo(func() error {
+			src, err := nodeutil.ReadJSON(c07whenData)
+			if err != nil {
+				return err
+			}
+			sel, err := node.NewBrowser(m, src).Root().Find(find)
+			if err != nil {
+				return err
+			}
+			if sel == nil {
+				o = "nil"
+				return nil
+			}
+			o, err = nodeutil.WriteJSON(sel)
+			return err
+		})
+		if e != nil {
+			return "error " + short(e.Error())
+		}
+		return o
+	}
+	params := []string{"", "content=config", "content=nonconfig", "content=all", "with-defaults=trim", "depth=1", "depth=2", "depth=3",
+		"fields=auto%3Btail", "fields=row%2Fext%3Blive%3Bus", "fc.xfields=mode%3Bseen%3Bus%2Fon", "fc.xfields=row%2Fkind%3Brow%2Fst%3Bauto%2Famode", "fc.range=row!1-1",
+		"content=config&with-defaults=trim", "content=config&depth=2", "with-defaults=trim&fields=auto%3Bus%3Brow", "content=nonconfig&depth=3", "fc.xfields=name&content=config"}
+	for _, target := range []string{"", "auto", "auto/deep", "live", "us", "us/gc", "row", "row=r1", "row=r2/ext", "st", "st/more"} {
+		for _, q := range params {
+			find := target
+			if q != "" {
+				find += "?" + q
+			}
+			if find == "" {
+				find = "?depth=99"
+			}
+			w, n := read(mW, find), read(mN, find)
+			c.Evaluations++
+			c.Count("when_probe_parameter", strings.SplitN(q, "=", 2)[0])
+			c.Distinct("whenprobe " + find)
+			if w != n {
+				c.Violation(core.Replay{Kind: "property-failure", Class: "when-transparent-" + strings.SplitN(q, "=", 2)[0],
+					Summary: fmt.Sprintf("Find(%q) on a module whose conditions all hold gives %s; the same module without the conditions gives %s", find, short(w), short(n)),
+					Input:   map[string]interface{}{"yang": yW, "yang_without_when": yN, "data": c07whenData, "find": find}, Impl: w, Spec: n})
+			}
+		}
+	}
+}
+
 func C07(c *core.Ctx) {
+	c07whenProbe(c)
 	c.Rule = "generated schemas (containers, keyed lists nested up to 3 levels, config-false containers/lists/leaves, defaults) × trees (values equal to their default, unset leaves with defaults, lists of 0–4 entries) × targets (module, container, list, list entry) × queries: every parameter alone and random combinations of depth (1–5), content (config/nonconfig/all), fields and fc.xfields (random expressions over the schema: nested paths, alternatives, groups, something after a group, unknown names), with-defaults=trim, fc.range (windows incl. empty, reversed, out of range, on nested lists, several lists, the target list itself), raw and percent-encoded; result (WriteJSON of the constrained selection) compared with the Lean projection model; source store compared before/after; ParsePathExpression compared with the Lean parser on every generated and on malformed expressions; a stream of invalid parameter values must be refused. non-trivial = query that removes something but not everything; distinct by (schema, tree, target, query)"
 	c.Assumptions = append(c.Assumptions,
 		"the result is observed through the JSON writer (C15) and decoded by encoding/json; an empty array and an absent list are not distinguished",
